@@ -31,6 +31,10 @@ type Case struct {
 	Recorder int     `json:"recorder"` // number of recorder threads on a pre-registered counter
 	Pass     int     `json:"pass"`     // number of modelled passes on one ticker thread (0 = none)
 	Sched    []int   `json:"sched"`
+	// San: the root has a sanitizer (alphanumerics, '_' and '.') and every metric name is requested in a
+	// raw spelling the sanitizer rewrites ("c-0" -> "c_0"): the get-or-create paths then probe, re-check
+	// and store under the sanitized name
+	San bool `json:"san,omitempty"`
 }
 
 func genReqs(t *rapid.T, maxOps int) []Req {
@@ -65,6 +69,7 @@ func gen(t *rapid.T) Case {
 		}
 		c.Threads = append(c.Threads, reqs)
 	}
+	c.San = rapid.IntRange(0, 2).Draw(t, "san") == 0
 	c.Recorder = rapid.IntRange(0, 2).Draw(t, "recorders")
 	c.Pass = rapid.IntRange(0, 2).Draw(t, "passes")
 	c.Sched = sgen.Choices(t, 200, nt+c.Recorder+1)
@@ -72,6 +77,7 @@ func gen(t *rapid.T) Case {
 }
 
 type world struct {
+	san      bool
 	mu       sync.Mutex
 	ptrs     map[string]map[interface{}]bool // key -> set of distinct objects returned
 	counters map[string]int64                // delivered-id -> recorded total
@@ -99,29 +105,41 @@ func doReq(w *world, scopes []tally.Scope, r Req) {
 	sc := scopes[r.S]
 	switch r.K {
 	case "counter":
-		n := fmt.Sprintf("c%d", r.N)
-		c := sc.Counter(n)
+		n, raw := fmt.Sprintf("c%d", r.N), fmt.Sprintf("c%d", r.N)
+		if w.san {
+			n, raw = fmt.Sprintf("c_%d", r.N), fmt.Sprintf("c-%d", r.N)
+		}
+		c := sc.Counter(raw)
 		w.saw(fmt.Sprintf("counter/%d/%s", r.S, n), c)
 		c.Inc(r.D)
 		w.mu.Lock()
 		w.counters[metricName(r.S, n)] += r.D
 		w.mu.Unlock()
 	case "gauge":
-		n := fmt.Sprintf("g%d", r.N)
-		g := sc.Gauge(n)
+		n, raw := fmt.Sprintf("g%d", r.N), fmt.Sprintf("g%d", r.N)
+		if w.san {
+			n, raw = fmt.Sprintf("g_%d", r.N), fmt.Sprintf("g-%d", r.N)
+		}
+		g := sc.Gauge(raw)
 		w.saw(fmt.Sprintf("gauge/%d/%s", r.S, n), g)
 		g.Update(float64(r.D))
 	case "timer":
-		n := fmt.Sprintf("t%d", r.N)
-		tm := sc.Timer(n)
+		n, raw := fmt.Sprintf("t%d", r.N), fmt.Sprintf("t%d", r.N)
+		if w.san {
+			n, raw = fmt.Sprintf("t_%d", r.N), fmt.Sprintf("t-%d", r.N)
+		}
+		tm := sc.Timer(raw)
 		w.saw(fmt.Sprintf("timer/%d/%s", r.S, n), tm)
 		tm.Record(time.Duration(r.D))
 		w.mu.Lock()
 		w.timers[metricName(r.S, n)]++
 		w.mu.Unlock()
 	case "histogram":
-		n := fmt.Sprintf("h%d", r.N)
-		h := sc.Histogram(n, tally.ValueBuckets{1, 3})
+		n, raw := fmt.Sprintf("h%d", r.N), fmt.Sprintf("h%d", r.N)
+		if w.san {
+			n, raw = fmt.Sprintf("h_%d", r.N), fmt.Sprintf("h-%d", r.N)
+		}
+		h := sc.Histogram(raw, tally.ValueBuckets{1, 3})
 		w.saw(fmt.Sprintf("histogram/%d/%s", r.S, n), h)
 		h.RecordValue(float64(r.D))
 		w.mu.Lock()
@@ -217,9 +235,14 @@ func run(c Case) (pbt.Outcome, error) {
 	} else {
 		opts.Reporter = &rec.Stats{L: log}
 	}
+	if c.San {
+		alnum := []tally.SanitizeRange{{'a', 'z'}, {'A', 'Z'}, {'0', '9'}}
+		vc := tally.ValidCharacters{Ranges: alnum, Characters: []rune{'_', '.'}}
+		opts.SanitizeOptions = &tally.SanitizeOptions{NameCharacters: vc, KeyCharacters: vc, ValueCharacters: vc, ReplacementCharacter: '_'}
+	}
 	root, _ := tally.VerifNewRootScope(opts, 0, c.Shards)
 	scopes := []tally.Scope{root, root.SubScope("sub")}
-	w := &world{ptrs: map[string]map[interface{}]bool{}, counters: map[string]int64{}, timers: map[string]int{}, hists: map[string]int64{}}
+	w := &world{san: c.San, ptrs: map[string]map[interface{}]bool{}, counters: map[string]int64{}, timers: map[string]int{}, hists: map[string]int64{}}
 	pre := root.Counter("pre")
 
 	s := sched.New(c.Sched)
